@@ -2,11 +2,18 @@
 //! Usage: vcore <ID> --tier quick|thorough [--replay file]
 
 mod c01;
+mod c02;
 mod c03;
+mod c05;
+mod c06;
 mod c07;
 mod c08;
 mod c09;
 mod c10;
+mod c11;
+mod c12;
+mod c17;
+mod stack;
 mod c14dec;
 mod tcpmodel;
 
@@ -18,11 +25,17 @@ type ReplayFn = fn(&serde_json::Value, &str) -> String;
 /// id, evidence level, run, replay
 const CHECKS: &[(&str, &str, RunFn, ReplayFn)] = &[
     ("C01", "model_checking", c01::run, c01::replay),
+    ("C02", "model_checking", c02::run, c02::replay),
     ("C03", "model_checking", c03::run, c03::replay),
+    ("C05", "model_checking", c05::run, c05::replay),
+    ("C06", "model_checking", c06::run, c06::replay),
     ("C07", "model_checking", c07::run, c07::replay),
     ("C08", "exploration", c08::run, c08::replay),
     ("C09", "model_checking", c09::run, c09::replay),
     ("C10", "exploration", c10::run, c10::replay),
+    ("C11", "model_checking", c11::run, c11::replay),
+    ("C12", "model_checking", c12::run, c12::replay),
+    ("C17", "model_checking", c17::run, c17::replay),
     // decoder part of C14, runnable on its own; ./check C14 runs the vapp binary, which includes it
     ("C14dec", "exploration", c14dec::run, c14dec::replay),
 ];
@@ -44,6 +57,7 @@ fn main() {
         println!("{}", (c.3)(&v["witness"], &args.tier));
         return;
     }
+    vkit::quiet_stdout();
     let mut r = Report::new(c.0, &args.tier, c.1);
     (c.2)(&mut r, &args.tier);
     std::process::exit(r.finish());
